@@ -336,6 +336,55 @@ def check_start_sync(ctx, rule='R-STARTSYNC'):
                                   '1970001 placeholder while %s keeps the old value, so the start attributes no longer equal the first time flag' % (attr, tname, col, attr)), oid=attr)
 
 
+def check_time_reduce(ctx, rule='R-TIMEREDUCE'):
+    """applyAlongDimensions on an IOAPI file: the base method reduces every variable that has the dimension - TFLAG included, whose
+    YYYYDDD / HHMMSS codes are not numbers (the mean of 0 and 10000 is 5000 = 00:50, the sum of two dates is no date).  When TSTEP is
+    among the processed dimensions the wrapper therefore needs a TSTEP handler of its own: the start date and time are stored from
+    times computed from the source's decoded times, and the arithmetically reduced TFLAG is discarded or overwritten."""
+    from . import c11
+    ctx.rule(rule, 'ioapi_base.applyAlongDimensions: when TSTEP is processed, SDATE/STIME are stored from decoded times and the reduced TFLAG is replaced')
+    io = ctx.src.mod(IO)
+    q = 'ioapi_base.applyAlongDimensions'
+    fn = io.func(q)
+    where = 'src/PseudoNetCDF/%s %s' % (IO, q)
+    facts = c11.Facts(fn, obj='outf')
+    def consistent(p_):
+        # the same membership test decided both ways on one path: not a path of the program (kwds is not re-bound in between)
+        seen = {}
+        for e_, x, pol in p_[1].conds:
+            if c11.sel_of(x) is not None:
+                if seen.setdefault(norm(x), pol) != pol:
+                    return False
+        return True
+    tpaths = [(i, p_) for i, p_ in enumerate(facts.paths) if p_[2].get('TSTEP') is True and consistent(p_)]
+    if not tpaths:
+        ctx.violation(Finding(rule, IO, q, fn.body[-1], 'the wrapper has no branch for a processed TSTEP dimension: the base method reduces TFLAG arithmetically (mean of 0 and 10000 = 5000, i.e. 00:50) '
+                              'and SDATE / STIME keep the values of the source, so the start attributes no longer equal the first time flag'))
+        return
+    for attr in ('SDATE', 'STIME'):
+        stored = dict((f['path'], f) for f in facts.of(attr) if f['before_update'])
+        missing = [i for i, p_ in tpaths if i not in stored]
+        if missing:
+            ctx.violation(Finding(rule, IO, q, fn.body[-1], '%s is not stored (before updatemeta) on every path that processes TSTEP' % attr), oid=attr)
+            continue
+        src_ok = all('getTimes' in norm(stored[i]['value']) and 'strftime' in norm(stored[i]['value']) for i, p_ in tpaths)
+        if src_ok:
+            ctx.ok(rule, attr, where, 'formatted from times derived from self.getTimes() on %d paths' % len(tpaths))
+        else:
+            ctx.undec(rule, attr, where, 'stored on every TSTEP path, source not recognised: %s' % norm(stored[tpaths[0][0]]['value'])[:60])
+    # the reduced TFLAG does not survive: deleted before updatemeta (which rebuilds it) or overwritten afterwards
+    ok_t = True
+    for i, (pth, res, sel, truthy) in tpaths:
+        dele = any(isinstance(st, ast.Delete) and any("variables['TFLAG']" in norm(t) for t in st.targets) for st in pth.stmts)
+        over = any(isinstance(new, ast.Assign) and isinstance(new.targets[0], ast.Subscript) and "variables['TFLAG']" in norm(new.targets[0]) for st, new in res.stmts)
+        if not (dele or over):
+            ok_t = False
+    if ok_t:
+        ctx.ok(rule, 'TFLAG', where, 'the arithmetically reduced TFLAG is deleted / overwritten on every TSTEP path')
+    else:
+        ctx.violation(Finding(rule, IO, q, fn.body[-1], 'on a path that processes TSTEP the TFLAG variable reduced by the base method is kept: its date and time codes were averaged / summed as numbers'), oid='TFLAG')
+
+
 def check_dim_reset(ctx, rule='R-DIMRESET'):
     """griddesc.adddims creates LAY and, depending on FTYPE, either ROW and COL or PERIM.  It is called again by setgrid() after the
     file type or the grid changed: a horizontal dimension that the branch taken now does not create must not survive from the earlier
@@ -845,6 +894,7 @@ def run(ctx):
     check_varlist_width(ctx)
     check_start_sync(ctx)
     check_dim_reset(ctx)
+    check_time_reduce(ctx)
     # ---- R-COUNTATTR
     for attr, dim in (('NLAYS', 'LAY'), ('NCOLS', 'COL'), ('NROWS', 'ROW')):
         want = "self.%s = len(self.dimensions['%s'])" % (attr, dim)
